@@ -303,15 +303,20 @@ impl Property for P {
     }
     fn workloads(&self, tier: Tier) -> Vec<Workload> {
         vec![
-            Workload::new("random-chains", tier.pick(3_000, 120_000), false, format!("random chains x (1 + {}) schedules", tier.pick(6, 8))),
-            Workload::new("all-cuts", tier.pick(150, 2_000), false, "short chains x every single cut and every pair of cuts"),
+            if tier == Tier::Quick {
+                Workload::new("random-chains", 3_000, false, "random chains x (1 one-shot + 6 seeded schedules)")
+            } else {
+                Workload::new("random-chains-x8", 1_000_000, false, "random chains x (1 one-shot + 8 seeded schedules)")
+            },
+            Workload::new("all-cuts", tier.pick(150, 6_000), false, "short chains x every single cut and every pair of cuts"),
         ]
     }
     fn run_case(&self, wl: &str, idx: u64, seed: u64, rec: &mut Rec) {
         let mut rng = Rng::derive(seed, wl, idx);
         if wl == "random-chains" {
-            // the tier is not visible here; the schedule count is derived from the workload size via idx parity
             random_case(&mut rng, 6, rec)
+        } else if wl == "random-chains-x8" {
+            random_case(&mut rng, 8, rec)
         } else {
             cut_case(&mut rng, rec)
         }
